@@ -1556,6 +1556,19 @@ def cross_crs(R: Run, O, gb):
         rows = r0 + sub_index(r1 - r0, max(1, (r1 - r0) // 150))
         one_case(a, b, sbox, dbox, rng.choice([None, None, 1]), None, f"worldgrid-z{z}", rows=rows, cols=cols)
 
+    # ---------------- numerically IDENTICAL grids (same shape, same affine numbers) in DIFFERENT CRSs: neighbouring UTM zones,
+    #                  two geographic datums, Mercator variants, CRSs without EPSG codes - never a same-CRS / paste plan
+    TWINS = [("EPSG:32755", "EPSG:32756", 30.0, (6.0e5, 6.1e6)), ("EPSG:32633", "EPSG:32634", 10.0, (4.2e5, 5.6e6)),
+             ("EPSG:4326", "EPSG:4283", 0.00025, (146.0, -36.0)), ("EPSG:4326", "EPSG:4269", 0.01, (-100.0, 40.0)),
+             ("EPSG:3857", "EPSG:3395", 100.0, (1.0e6, 5.0e6)), (SINU_0, SINU_15, 463.3127165, (1.0e6, 5.0e6)), (LAEA_A, LAEA_B, 500.0, (4.0e6, 3.0e6))]
+    for a, b, res_, (x0_, y0_) in TWINS:
+        for _ in range(R.pick(1, 4)):
+            shp = (rng.randint(8, 60), rng.randint(8, 60))
+            A_ = Affine(res_, 0, x0_ + res_ * rng.randint(-50, 50), 0, -res_, y0_ + res_ * rng.randint(-50, 50))
+            if rng.random() < 0.5:
+                a, b = b, a
+            one_case(a, b, (shp, A_), (shp, A_), rng.choice([None, None, 0]), rng.choice([None, None, 0]), "twin-grids")
+
     # ---------------- disjoint rasters a fraction of a pixel beyond the padding margin, explicit / falsy paddings
     xcrs_near_touching(R, O, gb, R.pick(60, 600))
 
